@@ -1,0 +1,10 @@
+//go:build !verif
+// +build !verif
+
+package service
+
+import (
+	sdk "github.com/cosmos/cosmos-sdk/types"
+)
+
+func endBlockHook(ctx sdk.Context, stage string, requestContextID []byte) {}
